@@ -68,7 +68,10 @@ class Gen:
         return '<form><p>%s <input name="n" value="1"></p></form>' % self.words(1, 2)
 
     def body(self):
-        return ''.join(self.block() for _ in range(self.r.randint(1, 4)))
+        out = ''.join(self.block() for _ in range(self.r.randint(1, 4)))
+        if self.r.random() < 0.08:      # pages that end with an empty block element (tags with no word after them)
+            out += self.r.choice(['<p></p>', '<div></div>', '<ul><li></li></ul>', '<section><p></p></section>', '<table></table>'])
+        return out
 
     def document(self, body):
         r = self.r
@@ -127,6 +130,17 @@ class Gen:
                                 toks[j] = '</a>' + (m.group(1) if r.random() < 0.7 else ' ' + m.group(1) + ' ')
                                 break
                         break
+            elif k < 0.84:                 # attribute-only changes on start tags (class / id / data-*), often on nested wrappers in a row
+                starts = [i for i, t in enumerate(toks) if t.startswith('<') and not t.startswith('</') and not t.startswith('<!')
+                          and not t.startswith('<a ') and not t.startswith('<img') and not t.startswith('<script') and not t.startswith('<style')]
+                if starts:
+                    first = r.randrange(len(starts))
+                    for i in starts[first:first + r.randint(1, 3)]:
+                        name_end = len(toks[i]) - 1
+                        body = toks[i][:name_end].rstrip('/')
+                        close = toks[i][len(body):]
+                        body = re.sub(r' (class|id|data-v)="[^"]*"', '', body) if r.random() < 0.4 else body
+                        toks[i] = body + ' %s="%s"' % (r.choice(['class', 'id', 'data-v']), r.choice(['a', 'b', 'x y', 'n1'])) + close
             elif k < 0.9:                  # delete a balanced top-level element
                 pos = self._top_level_positions(toks)
                 if len(pos) > 2:
